@@ -111,6 +111,11 @@ def c07(run: Run):
     rules_c07.check(run, program(run), cyprogram(run), sites(run))
 
 
+def c05(run: Run):
+    from . import rules_c05
+    rules_c05.check(run, program(run))
+
+
 def c06(run: Run):
     from . import rules_c06
     rules_c06.check(run, program(run))
@@ -124,6 +129,7 @@ def c01(run: Run):
 CHECKS = {
     "C01": c01,
     "C03": c03,
+    "C05": c05,
     "C06": c06,
     "C07": c07,
     "C08": c08,
